@@ -33,6 +33,10 @@ pub fn bytes_workload(ctx: &mut Ctx, shard: usize, nshards: usize, salt: u64, n_
         if shard == 0 {
             gb::large_inputs(&mut |b| f(ctx, b));
         }
+        let n = gb::relational_inputs(shard, nshards, &mut |b| f(ctx, b));
+        ctx.class_add("relational-inputs(>65535 tiles; inputs beyond 65536 words x 7 length fields x 11 types)", n);
+        let n = gb::sdes_priv_pairs(shard, nshards, &mut |b| f(ctx, b));
+        ctx.class_add("exhaustive:sdes-priv(all 65536 (length, prefix length) pairs)", n);
     } else {
         let mut k = 0u64;
         let want = ctx.n(4000) as u64;
